@@ -189,6 +189,12 @@ pub fn record(rec: &mut Recorder, seed: u64, thorough: bool) {
     small::<Dna, U2>(rec, &mut r, thorough);
     small::<Dna, U4>(rec, &mut r, thorough);
     small::<Dna, U16>(rec, &mut r, thorough);
+    // column counts that are not powers of two (any PositiveLength is legal for the generic pipeline)
+    small::<Dna, U3>(rec, &mut r, thorough);
+    small::<Dna, U5>(rec, &mut r, thorough);
+    small::<Dna, U12>(rec, &mut r, thorough);
+    small::<Protein, U7>(rec, &mut r, thorough);
+    small::<Dna, U43>(rec, &mut r, thorough);
     small::<Protein, U2>(rec, &mut r, thorough);
     small::<Protein, U16>(rec, &mut r, thorough);
     generic!(Dna, U32);
